@@ -24,6 +24,10 @@
 (* keeps the length, "gzip" shrinks compressible and grows other content,  *)
 (* "base64" always grows, "rot13+gzip" is a chain of two.  The other two   *)
 (* branches never look at the extensions.                                  *)
+(* The long-running filter serves many files one after the other: prev is  *)
+(* what the same process cleaned just before ("none": c is its first       *)
+(* request; "empty" | "shortdata" | "ptr": a zero-byte file, ten bytes of   *)
+(* content, a canonical pointer).  Branch(c) does not depend on it either. *)
 (* A case is: clean(c) under (delivery, front-end, work-tree state), then  *)
 (* smudge of what clean produced; smudge must return c's bytes.  TLC       *)
 (* enumerates the product completely; the harness concretises each case.   *)
@@ -31,10 +35,10 @@
 EXTENDS Integers, Sequences, FiniteSets, TLC, Json, CSV, IOUtils
 
 CONSTANTS Contents,     \* content classes (records, see Filter_MC)
-          Deliveries, FrontEnds, WtStates, Exts, Emit
+          Deliveries, FrontEnds, WtStates, Exts, Prevs, Emit
 
-VARIABLES c, delivery, frontend, wt, ext, phase, out, stored
-vars == <<c, delivery, frontend, wt, ext, phase, out, stored>>
+VARIABLES c, delivery, frontend, wt, ext, prev, phase, out, stored
+vars == <<c, delivery, frontend, wt, ext, prev, phase, out, stored>>
 
 \* a content class is [name, kind, len]; kind "data" | "ptr"; for kind "ptr", wf says
 \* whether the bytes parse as a pointer (C07) — look-alikes that do not parse have wf = FALSE
@@ -44,6 +48,7 @@ Branch(x) == IF x.len = 0 THEN "empty" ELSE IF IsWellFormedPointer(x) THEN "pass
 \* combinations that make sense (pruning inside Init, so it also holds for simulation)
 Meaningful(x, d, f, w) ==
   /\ (ext # "none" => f \in {"oneshot", "process", "gitadd"} /\ d \in {"whole", "split_mid", "pkt1024", "pktmax"} /\ w \in {"none", "same"})
+  /\ (prev # "none" => f \in {"process", "gitadd"} /\ ext = "none" /\ d \in {"whole", "pkt7", "pktmax"} /\ w \in {"none", "same"})
   /\ (f = "gitadd" => d = "whole" /\ w = "same")           \* git owns delivery and the file
   /\ (f = "mergedriver" => d = "whole" /\ w \in {"shorter", "longer"} /\ x.kind = "merge")   \* git merge through `git lfs merge-driver`:
                                                            \* w = how the previous pointer file compares in length with the new one
@@ -54,18 +59,18 @@ Meaningful(x, d, f, w) ==
   /\ (d = "pkt1" => x.len <= 3000)
   /\ (d = "pkt7" => x.len <= 70000)
 
-Init == /\ c \in Contents /\ delivery \in Deliveries /\ frontend \in FrontEnds /\ wt \in WtStates /\ ext \in Exts
+Init == /\ c \in Contents /\ delivery \in Deliveries /\ frontend \in FrontEnds /\ wt \in WtStates /\ ext \in Exts /\ prev \in Prevs
         /\ Meaningful(c, delivery, frontend, wt)
         /\ phase = "start" /\ out = "none" /\ stored = FALSE
 
 Clean == /\ phase = "start" /\ phase' = "cleaned"
-         /\ out' = Branch(c)                    \* depends on c only: not on delivery, frontend, wt, ext
+         /\ out' = Branch(c)                    \* depends on c only: not on delivery, frontend, wt, ext, prev
          /\ stored' = (Branch(c) = "content")
-         /\ UNCHANGED <<c, delivery, frontend, wt, ext>>
+         /\ UNCHANGED <<c, delivery, frontend, wt, ext, prev>>
 
 Smudge == /\ phase = "cleaned" /\ phase' = "smudged"
           /\ out' = "original"                  \* smudging what clean produced yields c's bytes
-          /\ UNCHANGED <<c, delivery, frontend, wt, ext, stored>>
+          /\ UNCHANGED <<c, delivery, frontend, wt, ext, prev, stored>>
 
 Next == Clean \/ Smudge
 Spec == Init /\ [][Next]_vars
@@ -74,6 +79,6 @@ Spec == Init /\ [][Next]_vars
 NoPointerToPointer == (phase # "start" /\ IsWellFormedPointer(c)) => ~stored
 LookAlikeIsContent == (phase # "start" /\ c.kind = "ptr" /\ (~c.wf \/ c.len >= 1024)) => stored
 
-Case == [content |-> c, delivery |-> delivery, frontend |-> frontend, wt |-> wt, ext |-> ext, branch |-> Branch(c)]
+Case == [content |-> c, delivery |-> delivery, frontend |-> frontend, wt |-> wt, ext |-> ext, prev |-> prev, branch |-> Branch(c)]
 EmitState == (Emit /\ phase = "smudged") => CSVWrite("%1$s", <<ToJson(Case)>>, IOEnv.OUT)
 =============================================================================
